@@ -41,18 +41,18 @@ theorem tellAll_sys_userQ (ts : List Cid) (s : Sys) (sender : Option Cid) (m : M
 then the resume for every level of the chain. -/
 theorem C09_graceful_restart_equation (s : Sys) (sup f : Cid) (rest : List (Cid × List Cid))
     (hs : (s.ctx sup).strat = 1) (hd : (s.ctx sup).decisions = [2]) :
-    onSupervise s sup ((f, []) :: rest) =
+    onSuperviseDecide s sup ((f, []) :: rest) =
       tellAll (tellAll (tellAll (say (upd s sup (fun x => { x with decIdx := x.decIdx + 1 })) s!"decide:{sup}:{f}:{2}")
         true (some sup) [f] .cmdPause) false (some sup) [f] (.restart true))
         true (some sup) ([f] ++ (rest.map (·.2)).flatten) .cmdResume := by
-  unfold onSupervise
+  unfold onSuperviseDecide
   simp [hs, hd, Nat.mod_one]
 
 /-- **The backlog comes first.**  After a graceful-restart decision the target's user queue is its
 old user queue followed by the restart request: nothing overtakes the mail queued behind the failure. -/
 theorem C09_graceful_restart_behind_backlog (s : Sys) (sup f : Cid) (rest : List (Cid × List Cid))
     (hs : (s.ctx sup).strat = 1) (hd : (s.ctx sup).decisions = [2]) :
-    ((onSupervise s sup ((f, []) :: rest)).ctx f).userQ =
+    ((onSuperviseDecide s sup ((f, []) :: rest)).ctx f).userQ =
       (s.ctx f).userQ ++ [{ id := 0, sys := false, sender := some sup, msg := .restart true }] := by
   rw [C09_graceful_restart_equation s sup f rest hs hd]
   rw [tellAll_sys_userQ _ _ _ _ (by intro k h; cases h)]
@@ -73,13 +73,13 @@ theorem C09_graceful_restart_behind_backlog (s : Sys) (sup f : Cid) (rest : List
 /-- Graceful stop (decision 4): the poison kill lines up behind the backlog in the same way. -/
 theorem C09_graceful_stop_behind_backlog (s : Sys) (sup f : Cid) (rest : List (Cid × List Cid))
     (hs : (s.ctx sup).strat = 1) (hd : (s.ctx sup).decisions = [4]) :
-    ((onSupervise s sup ((f, []) :: rest)).ctx f).userQ =
+    ((onSuperviseDecide s sup ((f, []) :: rest)).ctx f).userQ =
       (s.ctx f).userQ ++ [{ id := 0, sys := false, sender := some sup, msg := .onKill true }] := by
-  have heq : onSupervise s sup ((f, []) :: rest) =
+  have heq : onSuperviseDecide s sup ((f, []) :: rest) =
       tellAll (tellAll (tellAll (say (upd s sup (fun x => { x with decIdx := x.decIdx + 1 })) s!"decide:{sup}:{f}:{4}")
         true (some sup) [f] .cmdPause) false (some sup) [f] (.onKill true))
         true (some sup) ([f] ++ (rest.map (·.2)).flatten) .cmdResume := by
-    unfold onSupervise
+    unfold onSuperviseDecide
     simp [hs, hd, Nat.mod_one]
   rw [heq, tellAll_sys_userQ _ _ _ _ (by intro k h; cases h)]
   have h1 : tellAll (tellAll (say (upd s sup (fun x => { x with decIdx := x.decIdx + 1 })) s!"decide:{sup}:{f}:{4}")
@@ -100,11 +100,11 @@ theorem C09_graceful_stop_behind_backlog (s : Sys) (sup f : Cid) (rest : List (C
 (the backlog is kept for the restarted actor). -/
 theorem C09_immediate_restart_keeps_backlog (s : Sys) (sup f : Cid) (rest : List (Cid × List Cid))
     (hs : (s.ctx sup).strat = 1) (hd : (s.ctx sup).decisions = [1]) :
-    ((onSupervise s sup ((f, []) :: rest)).ctx f).userQ = (s.ctx f).userQ := by
-  have heq : onSupervise s sup ((f, []) :: rest) =
+    ((onSuperviseDecide s sup ((f, []) :: rest)).ctx f).userQ = (s.ctx f).userQ := by
+  have heq : onSuperviseDecide s sup ((f, []) :: rest) =
       tellAll (tellAll (say (upd s sup (fun x => { x with decIdx := x.decIdx + 1 })) s!"decide:{sup}:{f}:{1}")
         true (some sup) [f] .cmdPause) true (some sup) [f] (.restart false) := by
-    unfold onSupervise
+    unfold onSuperviseDecide
     simp [hs, hd, Nat.mod_one]
   rw [heq, tellAll_sys_userQ _ _ _ _ (by intro k h; cases h), tellAll_sys_userQ _ _ _ _ (by intro k h; cases h)]
   by_cases hfs : f = sup
@@ -117,7 +117,7 @@ resume travel through the system queue. -/
 example :
     let s := upd (upd (init true) 1 (fun x => { x with strat := 1, decisions := [2] })) 2
       (fun x => { x with userQ := [⟨5, false, none, .user 1⟩, ⟨6, false, none, .user 2⟩] })
-    ((onSupervise s 1 [(2, [])]).ctx 2).userQ.map (·.id) = [5, 6, 0] ∧
-    ((onSupervise s 1 [(2, [])]).ctx 2).sysQ.map (·.msg) = [.cmdPause, .cmdResume] := by decide
+    ((onSuperviseDecide s 1 [(2, [])]).ctx 2).userQ.map (·.id) = [5, 6, 0] ∧
+    ((onSuperviseDecide s 1 [(2, [])]).ctx 2).sysQ.map (·.msg) = [.cmdPause, .cmdResume] := by decide
 
 end Vivid.ActorSys
